@@ -1,4 +1,4 @@
-// idhelper <file> <create|open> <tag> <clock> <threads:0|1, 2 = digit-grouping global locale> <history: letters of FBSATRPX>
+// idhelper <file> <create|open> <tag> <clock> <threads:0|1, 2 = digit-grouping global locale, 3 = no file descriptor left after the open> <history: letters of FBSATRPX>
 // idhelper <file> <forkcold|forkwarm> <tag> <clock> <same_file:0|1> <historyA,historyB[,historyC]>
 //   worker pool: this process (library loaded) forks one worker per history WITHOUT exec, one after the other; "forkwarm":
 //   the parent has itself created a file (ids) before forking, "forkcold": it has not called the library at all.
@@ -16,6 +16,7 @@
 #include <time.h>
 #include <unistd.h>
 #include <sys/wait.h>
+#include <sys/resource.h>
 #include "vf.hpp"
 
 static long g_clock = 0;
@@ -87,10 +88,17 @@ int main(int argc, char **argv) {
         bool create = strcmp(argv[2], "create") == 0;
         File f = File::open(argv[1], create ? FileMode::Overwrite : FileMode::ReadWrite);
         if (create) printf("%s\n", f.id().c_str());
+        const bool starved = atoi(argv[5]) == 3;
+        if (starved) {
+            // the process runs out of file descriptors after the file is open: nothing that needs a NEW descriptor (an entropy
+            // device, say) can be opened from here on.  A creation may then fail with an exception; ids that ARE handed out count.
+            struct rlimit rl; getrlimit(RLIMIT_NOFILE, &rl); rl.rlim_cur = 0; setrlimit(RLIMIT_NOFILE, &rl);
+        }
         int k = 0;
         for (char c : hist) {
             if (c == 'F') continue;
             if (threads) { std::thread th([&] { one(f, c, tag, k); }); th.join(); }   // strictly sequential: one thread at a time
+            else if (starved) { try { one(f, c, tag, k); } catch (const std::exception &e) { fprintf(stderr, "idhelper (starved): creation refused: %s\n", e.what()); } }
             else one(f, c, tag, k);
             k++;
         }
